@@ -380,7 +380,7 @@ func TestC42(t *testing.T) {
 	defer c.Finish()
 	c.Assume("bank balances are the ground truth for what ICS-20 moved; rate limits are administered through the module's msg server with the authority address; application stack as wired in testing/simapp")
 	for k, v := range map[string]int64{
-		"probes": 35, "probes_v1": 20, "probes_alias": 7, "probes_v2": 2, "send_charge_checks": 35, "recv_charge_checks": 20, "send_charged_to_bank_denom": 25, "recv_charged_to_bank_denom": 18,
+		"probes": 35, "directed_two_hop_routes": 8, "probes_v1": 20, "probes_alias": 7, "probes_v2": 2, "send_charge_checks": 35, "recv_charge_checks": 20, "send_charged_to_bank_denom": 25, "recv_charged_to_bank_denom": 18,
 		"zero_send_quota_checks": 30, "zero_send_quota_blocked": 15, "zero_recv_quota_checks": 20, "zero_recv_quota_blocked": 20, "refund_charge_checks": 15, "origin_refused_denomination": 3,
 	} {
 		c.Floor(k, v)
@@ -393,8 +393,13 @@ func TestC42(t *testing.T) {
 		}
 		r := c.CaseRng(i)
 		err := kit.Try(func() {
-			s := NewSim(c, r, Line3())
+			topo := Line3()
+			topo.WideIDs = i%2 == 1
+			s := NewSim(c, r, topo)
 			s.quiet = true
+			if topo.WideIDs {
+				c.Inc("worlds_with_prefix_related_channel_ids")
+			}
 			w := &probeWorld{Sim: s, c: c, seen: seen}
 			var ids []string
 			for ch := range s.Ch {
@@ -424,6 +429,36 @@ func TestC42(t *testing.T) {
 				if nx := w.probe(holding{chain: chain, acct: 1, denom: d, path: d, class: class}, lane, r.Intn(3) == 0); nx != nil {
 					held = append(held, *nx)
 				}
+			}
+			// directed route through the chain in the middle: a token of chain 2 reaches chain 1 and goes onward to chain 0 (and the
+			// other way round), so that a voucher whose first hop names one channel of chain 1 leaves over its other channel
+			for _, route := range [][3]int{{2, 1, 0}, {0, 1, 2}} {
+				d := "u" + genWord(r) + fmt.Sprint(r.Intn(9)) + "r"
+				if kit.Try(func() { s.Ch[route[0]].Fund(s.Ch[route[0]].Addr(1), d, 1000) }) != nil {
+					continue
+				}
+				var first, second *Lane
+				for _, l := range s.lanesFrom(route[0], "v1", "alias") {
+					if l.side(route[1]) >= 0 {
+						first = l
+					}
+				}
+				kind2 := kit.Pick(r, []string{"v1", "alias"})
+				for _, l := range s.lanesFrom(route[1], kind2) {
+					if l.side(route[2]) >= 0 {
+						second = l
+					}
+				}
+				if first == nil || second == nil {
+					continue
+				}
+				nx := w.probe(holding{chain: route[0], acct: 1, denom: d, path: d, class: "native-plain"}, first, false)
+				if nx == nil {
+					continue
+				}
+				nx.class += "-onward"
+				c.Inc("directed_two_hop_routes")
+				w.probe(*nx, second, false)
 			}
 			// vouchers received above go onward or return
 			for j := 0; j < 8 && len(held) > 0; j++ {
